@@ -124,6 +124,23 @@ func loadKnown(root string) []known {
 // Report handles the violations of one run: known findings are printed as such,
 // everything else gets a replay file and a VIOLATION line. Returns the exit code.
 func Report(id string, vs []Violation) (exit int, nNew int) {
+	if *ReplayF != "" {
+		// replay of a recorded violation by re-running the enumeration: reproduced iff the
+		// same fingerprint (failing input / history / class) is reported again
+		var rec Violation
+		data, err := os.ReadFile(*ReplayF)
+		if err != nil || json.Unmarshal(data, &rec) != nil {
+			Infra("cannot read replay file %s", *ReplayF)
+		}
+		for _, v := range vs {
+			if v.Fingerprint == rec.Fingerprint {
+				fmt.Printf("REPRODUCED property=%s fingerprint=%s\n  %s\n", id, v.Fingerprint, firstLines(v.Message, 12))
+				os.Exit(1)
+			}
+		}
+		fmt.Printf("not reproduced: no violation with fingerprint %q on this tree (%d other violations)\n", rec.Fingerprint, len(vs))
+		os.Exit(0)
+	}
 	kn := loadKnown(*Root)
 	seen := map[string]bool{}
 	for _, v := range vs {
